@@ -133,7 +133,7 @@ CLAIMS['C01'] = dict(category='proof', ref='5 Core E, 8 C01', text=_BROKER_TEXT 
 CLAIMS['C07'] = dict(category='proof', ref='5 Core E, 8 C07', text=_BROKER_TEXT % (
     "Theorems (18): exactly one SUBACK, first, same id, one code per filter in request order = min(requested, maximum) or 0x80, everything after it is a "
     "PUBLISH to the subscriber (C07_suback_shape); codes equal the reference broker's for EVERY filter that does not begin with '$', empty levels and the empty filter included (C07_codes_spec_full_holds - the full statement, true since the repair of B6: the store accepts exactly the valid filters, Proofs.Topics.levels_ok / entryLevels_ok; C07_codes_spec_partial is its corollary; 'a/$b' and '+/$b' are granted since the repair of B4: C07_codes_dollar_level; the empty filter gets 0x80 on both sides: C07_codes_empty_filter); "
-    "UNSUBSCRIBE answered by exactly one UNSUBACK (C07_unsuback); effect on the trie, other subscribers untouched (C07_subscribe_effect, "
+    "UNSUBSCRIBE answered by exactly one UNSUBACK (C07_unsuback); both acknowledgements are written after the last change to the subscription store and the session (regenerated statement order, C07_ack_follows_effects); effect on the trie, other subscribers untouched (C07_subscribe_effect, "
     "C07_unsubscribe_effect, C07_granted_is_held); a matching PUBLISH accepted after the SUBACK is forwarded, none after the UNSUBACK "
     "(C07_effective_after_suback_partial, C07_none_after_unsuback_partial); the held list of the reference broker is maintained (C07_held_refines_partial, "
     "_srv_partial; B3 counterexample); regenerated maximum QoS = specification's (C07_facts_maxQos); invariant preserved by every step (C07_inv_step/_run). "
